@@ -223,6 +223,50 @@ def native_verdict(prog, replay, req):
     return False, 'failure leaves no trace: ' + ' '.join(os_)
 
 
+def make_stale_trace_harness(prog):
+    """read / compile failures after a run-time failure: the stack trace reported for the later failure must be the one a VM
+    without the earlier failure reports (none: nothing ran).  The real prepare_eval / compile_runnable / compile /
+    transform / compile_expression run from MIR on every atom that is not a valid program and on self-evaluating atoms."""
+    fab = Fab(prog)
+    PREP = prog.resolve_crate('Vm::prepare_eval')
+    CE = prog.enums['Cell']
+    ATOMS = ['Nil', 'Void', 'Undefined', 'Macro', 'Continuation', 'Bool', 'Char', 'Number']
+
+    def harness(it):
+        f = fab
+        heap = f.heap([f.vc('Nil')], 16)
+        vm = f.vm(heap, f.stack([f.vc('Undefined') for _ in range(8)], 0))
+        # what an earlier failed evaluation left behind: Some(trace)
+        f.set_field(vm, 'Vm', 'last_stacktrace', Agg('Option', 1, [Agg('StackTrace', None, [[]])]))
+        vb = Cell(vm)
+        name = ATOMS[it.choose(len(ATOMS))]
+        payload = {'Bool': [z3.Bool('b')], 'Char': [z3.BitVec('c', 32)], 'Number': [Agg('Number', 0, [z3.BitVec('n', 64)])]}.get(name, [])
+        if name == 'Char': it.assume(z3.And(z3.ULT(payload[0], 0xD800)))
+        it.ghost['atom'] = name
+        r = it.call(PREP, [Ref(vb), Ref(Cell(Agg('Cell', CE.index(name), payload)))])
+        ls = f.field(vb.v, 'Vm', 'last_stacktrace')
+        it.ghost['tags'] = ['%s-%s' % (name, 'err' if r.var == 1 else 'ok')]
+        if ls.var != 0:
+            failed = r.var == 1
+            return {'what': 'after a failed evaluation, %s of the atom %s still reports the stack trace of the EARLIER failure (a fresh VM reports none)' % ('the compile failure' if failed else 'preparing the evaluation', name),
+                    'key': 'stale-stack-trace-after-compile-failure' if failed else 'stale-stack-trace-at-prepare', 'request': {'cmd': 'c07trace', 'atom': name}}
+        return None
+    return harness
+
+
+def native_trace(replay, req):
+    """(car 1) fails at run time (trace recorded), then a form that fails before running: which trace is reported?"""
+    form = {'Nil': '()', 'Void': '()', 'Undefined': '()', 'Macro': '()', 'Continuation': '()'}.get(req['atom'])
+    if form is None: return None, 'no source text produces this atom after a failure'
+    replay.ask('newvm')
+    out1 = replay.ask('eval %s' % hexs('(car 1)'))
+    t1 = replay.ask('trace')
+    out2 = replay.ask('eval %s' % hexs(form))
+    t2 = replay.ask('trace')
+    if not out1.startswith('ERR') or not out2.startswith('ERR'): return None, 'unexpected native outcome %s / %s' % (out1, out2)
+    return t2 != 'NOTRACE', 'after (car 1) [%s] the compile failure of %s reports %s (a VM without the first failure reports NOTRACE)' % (t1, form, t2)
+
+
 FUNCTIONS = ['vm::run::Vm::run_count', 'vm::run::Vm::run_one', 'vm::trace::StackTrace::new', 'vm::stack::Stack::{clear,push,pop,get,get_offset}',
              'vm::run::Vm::{read_opcode,read_operand,load_operand,store_operand,get_str_bound_to}', 'vm::environment::GlobalEnvironment::{get_slot,get_symbol}']
 
@@ -280,9 +324,20 @@ def run(chk, ws, prog, tier, replays):
                     if b1 is None and b2 is None:
                         chk.inconclusive.append('%s: %s' % (name, d1)); continue
                     chk.violation(v['key'], (d1 if b1 else d2) + ' | ' + v['what'], v['request'], bool(b1) or bool(b2))
+    res = explore(prog, make_stale_trace_harness(prog), opts={'on_panic': on_panic, 'render_fmt': False}, quiet=True)
+    print('  harness %-58s %s' % ('stack-trace-of-a-later-compile-failure', res.summary()), flush=True)
+    chk.add_result('stack-trace-of-a-later-compile-failure', res, ['vm::Vm::prepare_eval', 'vm::compile::Vm::{compile_runnable,compile,transform,compile_expression,compile_quote}', 'vm::lambda::Lambda::{new,new_from_iof,emit}'],
+                   {'atoms': 'nil, void, undefined, macro, continuation (compile errors); booleans, characters, fixnums with symbolic payloads (compile)', 'pre-state': 'last_stacktrace = Some(trace of an earlier failure)'}, nontrivial=res.completed)
+    for v in res.violations:
+        if seen.get(v['key'], 0) >= 1: continue
+        seen[v['key']] = 1
+        b1, d1 = native_trace(dev, v['request']); b2, d2 = native_trace(rel, v['request'])
+        if b1 is None and b2 is None:
+            chk.inconclusive.append('stack-trace-of-a-later-compile-failure: %s' % d1); continue
+        chk.violation(v['key'], (d1 if b1 else d2) + ' | ' + v['what'], v['request'], bool(b1) or bool(b2))
     chk.extra['rule'] = ('evaluations = solver queries + MIR steps are reported per harness; distinct_nontrivial = completed paths (one per shape: call depth x error source x '
                          'number of failures; the data operand is symbolic). The shapes are enumerated, the run loop is executed from MIR.')
-    chk.assumptions += ['read / compile errors touch no VM state before run (argued from prepare_eval); heap and global effects are "completed effects" by definition',
+    chk.assumptions += ['read errors touch no VM state (parse_text takes no VM); compile errors: the stack-trace register is checked on prepare_eval of atoms, other state touched by a failing compile of compound forms is argued only; heap and global effects are "completed effects" by definition',
                         'programs are fabricated bytecode, not compiler output; failures inside a continuation are outside']
     chk.outside += ['call depth above 3', 'errors raised by builtins (same error arm of run_count)']
 
@@ -291,6 +346,9 @@ def replay_request(req, replays):
     from vlib import core
     prog = core.load_program(core.Workspace())
     models_vm.install(prog)
+    if req.get('cmd') == 'c07trace':
+        b1, d1 = native_trace(replays[0], req); b2, d2 = native_trace(replays[1], req)
+        return bool(b1) or bool(b2), d1 if b1 else d2
     nv = native_collect if req.get('cmd') == 'c07collect' else native_verdict
     b1, d1 = nv(prog, replays[0], req)
     b2, d2 = nv(prog, replays[1], req)
